@@ -69,6 +69,14 @@ def gen(seed, tier):
         n["opts"]["compressor"] = r.choice(["blosc", "blosc", "zstd", "lz4"])
         if workers > 1 and n["kind"] in ("rowmap", "filter", "multi", "merge2") and r.random() < 0.5:
             n["opts"]["parallel"] = True
+    if processor == "threaded_mailbox" and r.random() < 0.25:
+        # multiprocessing mode: plugins and their savers are inlined into a ParallelSourcePlugin and run behind the
+        # process-pool stub (pickle boundary); the inlined, 'forked' savers write one metadata_*.json per chunk
+        cfg.update(allow_multiprocess=True, max_workers=2, allow_lazy=False)
+        for n in spec["nodes"]:
+            if n["kind"] in ("source", "rowmap", "filter", "multi") and r.random() < 0.8:
+                n["opts"]["parallel"] = "process"
+                n["opts"]["rechunk_on_save"] = ({d: False for d in n["names"]} if "names" in n else False)
     need = sorted(G.needed_for(spec, target))
     prior = r.choice(["empty", "empty", "partial", "broken", "crashed"])
     w = {"spec": spec, "target": target, "cfg": cfg, "stored": {}, "prior": prior,
@@ -359,6 +367,8 @@ def run_one(seed, tier, replay=None, lenient=False):
         "faults": res["faults"],
         "probes": dict(res["probes"], **{f"prior_{w['prior']}": 1,
                                          "pool_saving_workloads": int(w["cfg"]["max_workers"] > 1),
+                                         "multiprocess_inlined_saver_workloads":
+                                             int(bool(w["cfg"].get("allow_multiprocess"))),
                                          "single_thread_workloads": int(w["cfg"]["processor"] == "single_thread")}),
         "strategy": w["strategy"].split(":")[0],
         "sub_evaluations": max(1, res["n_exec"]),
